@@ -5,6 +5,7 @@
    1001 = -0.0, any other c = the number c/2.  ty 3 = String: the bytes as base-256
    digits after a leading 1 ("" = 1, "a" = 353).  ty 4 = GenericArray<u8,U2>: 256*x+y.
    ty 5 = Kv {k, v}: 256*k+v, equal on both fields, ordered by the key alone.
+   ty 6 = i8: the value (signed order; hashed as write_i8 / one write of the bytes).
 
    pair case    0 ty n a_0..a_{n-1} b_0..b_{n-1}
      OBS  eq ne pcmp lt le gt ge 1  cmp hmA hmB hmShort hmLong btA btB btShort btLong 1
@@ -85,6 +86,7 @@ Definition run_pair (ty : Z) (a b : list Z) : list Z :=
   | 4 => let a' := map dec_nest a in let b' := map dec_nest b in
          pair_obs nest_eq nest_pcmp a' b' ++ cmp_part nest_eq nest_cmp nest_hasht a' b'
   | 5 => pair_obs kv_eq kv_pcmp a b ++ cmp_part kv_eq kv_cmp kv_hasht a b
+  | 6 => pair_obs int_eq int_pcmp a b ++ cmp_part int_eq int_cmp i8_hasht a b
   | _ => [-2]
   end.
 
@@ -143,6 +145,7 @@ Definition run_single (ty : Z) (table : list (Z * list (list Z))) (a : list Z) :
   | 3 => single_obs (Some str_hasht) (fun f s => leaf f (enc_str s)) (map (fun c => dec_str 40 c []) a)
   | 4 => single_obs (Some nest_hasht) (ga_debug leaf) (map dec_nest a)
   | 5 => single_obs (Some kv_hasht) leaf a
+  | 6 => single_obs (Some i8_hasht) leaf a
   | _ => [-2]
   end.
 
